@@ -1,6 +1,6 @@
 (* C02 - Reported RPU values are exactly the values encoded in the bitstream. *)
 From Coq Require Import List NArith ZArith Lia Bool String.
-From DV Require Import Outcome Bits BitIO Fields Blocks Rpu Tables Grammar C02Proofs.
+From DV Require Import Outcome Bits BitIO Fields Blocks Rpu Tables Grammar C02Proofs RpuWS C02Whole.
 From DVgen Require Import Blocks_gen DmData_gen.
 Import ListNotations.
 Open Scope N_scope.
@@ -42,6 +42,17 @@ Theorem C02_el_bit_depth_split : forall v, v < 65536 ->
   N.lor (N.shiftl (N.lor (N.land (N.shiftl (N.shiftr ext 5) 5) 255) (N.land ext 31)) 8) el = v.
 Proof. exact el_split_inverse. Qed.
 
+(* THE WHOLE RPU: the parser inverts the syntax. With the writer of the model as the definition of the RPU syntax
+   (compared on every run of C03 with an independent reference encoder written from the specification tables), every
+   canonical value tree x - any profile, any number of pivots, polynomial / MMR pieces, NLQ, DM data, any extension
+   blocks of any admissible length - once encoded is reported by the parser as exactly x, field for field
+   (reparsed x crc = x with the CRC read from the stream and the modified flag cleared) *)
+Theorem C02_parser_inverts_syntax : forall p sw x out,
+  write_rpu_data p sw x = Ok out -> rpu_canonical sw x ->
+  exists crc, parse_inner Debug sw out = Ok (reparsed x crc).
+Proof. exact parser_inverts_syntax. Qed.
+
 Print Assumptions C02_parser_matches_grammar.
+Print Assumptions C02_parser_inverts_syntax.
 Print Assumptions C02_signed_value.
 Print Assumptions C02_profile_rules.
